@@ -224,7 +224,10 @@ def _run_shard(args):
     path, timeout = args
     # a shard that times out on a loaded machine is retried with a longer limit: a timeout is not a disagreement
     for t in (timeout, 3 * timeout):
-        p = sh(["timeout", str(t), "coqc", "-noglob", "-Q", os.path.join(COQ, "theories"), "VP", path],
+        # vm_compute of a deeply recursive model function (e.g. enumeration over 2^12 combinations) needs more
+        # than the default 8 MB C stack
+        p = sh(["bash", "-c", 'ulimit -s unlimited 2>/dev/null || ulimit -s 4000000 2>/dev/null; exec timeout "$0" coqc -noglob -Q "$1" VP "$2"',
+                str(t), os.path.join(COQ, "theories"), path],
                cwd=os.path.dirname(path), timeout=t + 30)
         if p.returncode != 124:
             break
